@@ -582,8 +582,12 @@ impl Snap {
                 break;
             }
             // Make sure we'll have space for at least 256 additional extended types.
-            if id < next_type_id + 256 {
-                next_type_id = id + 1;
+            // Type IDs below `OFFSET_EXTENDED_TYPE_ID` can't be handed out
+            // either.
+            if id >= OFFSET_EXTENDED_TYPE_ID && id.u32() < next_type_id.u32() + 256 {
+                // Type IDs from 0x8000 on can't be handed out, see
+                // `Builder::add_item`.
+                next_type_id = cmp::min(id.u32() + 1, 0x8000).assert_u16();
             }
         }
         self.raw.clear();
@@ -906,7 +910,10 @@ impl Builder {
                     btree_map::Entry::Vacant(v) => {
                         let raw_type_id = self.next_type_id;
                         assert!(OFFSET_EXTENDED_TYPE_ID <= raw_type_id, "invalid type ID");
-                        assert!(raw_type_id < 0x8000, "invalid type ID");
+                        if raw_type_id >= 0x8000 {
+                            // All type IDs for extended types are used up.
+                            return Err(BuilderError::TooManyItems);
+                        }
                         self.snap.raw.add_item(
                             TYPE_ID_EX,
                             raw_type_id,
